@@ -127,9 +127,11 @@ def process(
                 )
 
         else:
-            if not ready:
-                continue
-            print(colored(f"READY {job_path}", "yellow"), end="")
+            # Not a job folder (yet): nothing to show but its path, nothing to
+            # kill or clean
+            if ready:
+                print(colored(f"READY {job}", "yellow"))
+            continue
 
         if tags:
             print(f""" {" ".join(f"{k}={v}" for k, v in info.tags.items())}""")
